@@ -38,7 +38,14 @@ let dom d s = if d then s else "na"
 (* the callable used for for_each / for_each_n: order-sensitive hash + in-place increment *)
 let fe h x = ((h * 31 + x) mod 1000003, x + 1)
 
+(* "_t<k>": result type of the predicate / comparator (int with truthy value 2, -1, 4096; class type convertible to bool):
+   the code may use the result only through its conversion to bool, so the model is that of the bool predicate *)
+let strip_truth op =
+  let n = String.length op in
+  if n > 3 && op.[n - 3] = '_' && op.[n - 2] = 't' && op.[n - 1] >= '1' && op.[n - 1] <= '4' then String.sub op 0 (n - 3) else op
+
 let run_case op t =
+  let op = strip_truth op in
   match op with
   | "min" | "max" | "minmax" | "clamp" ->
       (match op with
